@@ -410,7 +410,13 @@ func checkC04(c *Ctx) {
 		checkIdlePathsKeepPool(c, rpk)
 	}
 
-	rr := c.Rule("C04.restore", "SavePoint/RollbackTo restore the prepared-statement pool they temporarily replace on every path", 2)
+	checkPoolRestore(c, c.Rule("C04.restore", "SavePoint/RollbackTo restore the prepared-statement pool they temporarily replace on every path", 2))
+}
+
+// checkPoolRestore: C04.restore; instantiated for C14 as C14.tx-wrapper-kept (the transaction keeps running through its
+// statement-cache wrapper after a save point or a rollback to one).
+func checkPoolRestore(c *Ctx, rr *Rule) {
+	p := c.P
 	stmtT := p.Named(pkgGorm, "Statement")
 	poolF := p.Field(stmtT, "ConnPool")
 	for _, name := range []string{"SavePoint", "RollbackTo"} {
